@@ -15,6 +15,7 @@ HRef(form, d) == CASE form = "c0s"  -> << d[1], 0, d[2] >>
                    [] form = "s0c"  -> << d[2], 0, d[1] >>
                    [] form = "0c-s" -> << 0, d[1], -d[2] >>
                    [] form = "0cs"  -> << 0, d[1], d[2] >>
+                   [] form = "decl" -> << 3*d[1], 4*d[1], 5*d[2] >>     \* same dip, declination atan(4/3)
 
 (* convention key = <<gravity reference, magnetic form, type>> *)
 Conventions == {
@@ -29,7 +30,12 @@ Conventions == {
     << <<0,0,-1>>, "c0s",  "A" >>,      \* am2DCM NED
     << <<0,0,1>>,  "0cs",  "A" >>,      \* am2DCM ENU
     << <<0,0,-1>>, "c0s",  "Bq" >>,     \* am2q NED  (quaternion of the transpose)
-    << <<0,0,1>>,  "0cs",  "Bq" >> }    \* am2q ENU
+    << <<0,0,1>>,  "0cs",  "Bq" >>,     \* am2q ENU
+    (* estimators that take the magnetic reference as a vector: a reference with an East component *)
+    << <<0,0,1>>,  "decl", "A" >>,      \* TRIAD(v2 = vector)
+    << <<0,0,1>>,  "decl", "B" >>,      \* QUEST(magnetic_dip = vector)
+    << <<0,0,-1>>, "decl", "B" >>,      \* OLEQ(magnetic_ref = vector), FQA(mag_ref = vector)
+    << <<0,0,-1>>, "0cs",  "B" >> }     \* FQA(mag_ref pointing East)
 
 CONSTANTS Attitudes, Dips, Scales
 VARIABLES u, dip, conv, acc, mag, out, phase
